@@ -57,7 +57,8 @@ def respell_text(src, spans, toks, rng, p_respell=0.5, p_splice=0.15, only_brack
         if splices and rng.random() < p_splice and ty != "COMMENT" and k + 1 < len(toks):
             nxt = src[b] if b < len(src) else ""
             if nxt not in ("\n",) or True:
-                out.append(rng.choice(["\\\n", "??/\n"]))
+                # one splice, or several in a row (each in either spelling)
+                out.append("".join(rng.choice(["\\\n", "??/\n"]) for _ in range(rng.choice([1, 1, 1, 2, 2, 3]))))
                 changes += 1
     out.append(src[prev_end:])
     return "".join(out), changes
@@ -117,6 +118,11 @@ def run(res, tier, br, model_ok=True, search=False):
     progs = families.programs(rng, 60 if big else 10)
     viol = families.violating(rng, progs[: (30 if big else 5)], per_prog=2)
     bases = [(p.name, p.text) for p in progs] + [(p.name, t) for p, op, site, t, line in viol]
+    # punctuators that follow, on their line, literals holding quote characters (a quote of the other kind, an escaped
+    # quote, a quote as a character constant): where a literal ends is the lexer's business, not a matter of counting quotes
+    bases += [("quotes.c", "int\tf(char *str, int i)\n{\n\tif (str[i] == '\"' && str[i + 1] != '\"')\n\t\treturn (ft_strchr(\"\\\"'\", str[i]) != 0);\n"
+               "\tif (str[0] == '\\'' || str[1] == '\"')\n\t{\n\t\tstr[i] = \"'\"[0];\n\t}\n\tg_t[0] = '\"'; g_t[1] = \"\\\"\"[0]; g_u[2] = '\\'';\n\treturn (str[i] == \"a'b\"[1]);\n}\n"
+               "#define Q '\"'\nint\tg_q[3] = {'\"', '\\'', 2};\n")] * (4 if big else 3)
     bases += [("seq%d.c" % i, s) for i, s in enumerate(L.sampled(rng, 120 if big else 30, 14))]
     bases += [(n, s) for n, s in (families.repo_samples() if big else families.repo_samples()[::6])]
     for name, src in bases:
